@@ -113,6 +113,14 @@ def gen_cfg(rng, structure=None):
             cfg["chains"] = [" "]  # no chain ids at all: pdb2pqr has to invent them
         if rng.random() < 0.15 and nres >= 6:
             cfg["damage"] = (cfg.get("damage") or []) + [[rng.randint(1, nres - 3), "add_oxt"]]
+        # three sulfurs within bonding range (ambiguous disulfide partner): ties are where
+        # identity / address based ordering shows
+        wstart = cfg["window"][0] if cfg.get("window") else 0
+        wnames = _poly_resnames(item)[wstart:wstart + nres]
+        cys = [i for i, nm in enumerate(wnames) if nm in ("CYS", "CYX", "CYM")]
+        if len(cys) >= 3 and rng.random() < 0.5:
+            a, b = rng.sample(cys, 2)
+            cfg["damage"] = (cfg.get("damage") or []) + [[a, f"sg_near:{b}"]]
         if rng.random() < 0.12:
             cfg["damage"] = (cfg.get("damage") or []) + [[rng.randint(0, nres - 1), "altloc"]]
         if rng.random() < 0.10:
@@ -284,6 +292,70 @@ def one_axis_sibling(rng, base):
     if not cfg.get("files"):
         cfg.pop("files", None)
     return cfg
+
+
+SWEEP_OPTION_SETS = [
+    ["--ff=AMBER"], ["--ff=AMBER", "--noopt"], ["--ff=AMBER", "--nodebump"],
+    ["--ff=PARSE", "--noopt", "--nodebump"], ["--ff=AMBER", "--drop-water"],
+    ["--ff=AMBER", "--titration-state-method=propka", "--with-ph=2.0"],
+    ["--ff=PARSE", "--neutraln", "--neutralc"], ["--ff=CHARMM", "--ffout=AMBER"],
+]
+
+
+def abort_matrix_families(seed, quick):
+    """Structures with waters and some damage (so that debumping and water optimisation have
+    work to do) x option sets that select different stage implementations.  Every member
+    is used as the aborted cfg of an abort sweep, the *other* members as the runs that
+    follow the aborts -- 'a failed run of configuration O changes a later run of O''."""
+    rng = random.Random(seed * 17 + 3)
+    structs = [{"item": "1AJJ.pdb", "window": [rng.randint(0, 20), 12], "waters": 10,
+                "damage": [[rng.randint(0, 11), "drop_tail"]]},
+               {"item": "1BX8.pdb", "window": [rng.randint(0, 35), 12], "waters": 12}]
+    if not quick:
+        structs += [{"item": "1K1I.pdb", "window": [rng.randint(0, 150), 14], "waters": 14,
+                     "damage": [[3, "drop_tail"], [9, "keep_backbone"]]},
+                    {"item": "1US0.pdb", "window": [rng.randint(0, 280), 12], "waters": 12,
+                     "lig_het": "1US0-ligand.mol2"}]
+    fams = []
+    for st in structs:
+        fam = [dict(st, argv=list(o)) for o in SWEEP_OPTION_SETS]
+        if st.get("lig_het"):
+            fam.append(dict(st, argv=["--ff=AMBER", "--ligand={ligand}"],
+                            files={"ligand": st["lig_het"]}))
+        fams.append(fam)
+    return fams
+
+
+def feature_families(seed, quick):
+    """Deterministic families for rare *geometric* situations in which a tie has to be
+    broken -- where ordering by object identity / address or by insertion history shows."""
+    import math as _m
+
+    fams = []
+    for item in ("1AJJ.pdb", "1BX8.pdb") + (() if quick else ("1K1I.pdb",)):
+        groups = corpus.polymer_groups(corpus.residue_groups(
+            corpus.first_model_lines(corpus.load(item))))
+        sg = {}
+        for i, g in enumerate(groups):
+            if g["resname"] == "CYS":
+                for l in g["lines"]:
+                    if l[12:16].strip() == "SG":
+                        sg[i] = corpus._xyz(l)
+        bonded = [(a, b) for a in sg for b in sg if a < b and _m.dist(sg[a], sg[b]) < 2.5]
+        for a, b in bonded[: (1 if quick else 3)]:
+            third = next((c for c in sorted(sg) if c not in (a, b)), None)
+            if third is None:
+                continue
+            st = {"item": item, "damage": [[third, f"sg_near:{a}"]]}
+            lo = min(a, b, third)
+            hi = max(a, b, third)
+            if hi - lo < 24:
+                st["window"] = [max(0, lo - 1), hi - lo + 3]
+                st["damage"] = [[third - st["window"][0], f"sg_near:{a - st['window'][0]}"]]
+            fams.append([dict(st, argv=o) for o in (
+                ["--ff=AMBER"], ["--ff=PARSE", "--nodebump"], ["--ff=AMBER", "--noopt"],
+                ["--ff=CHARMM", "--titration-state-method=propka", "--with-ph=7.0"])])
+    return fams
 
 
 def titration_matrix_families(seed):
@@ -813,7 +885,20 @@ def main(tier, seed):
         if fam:
             families.append(fam)
     n_pool_random = len(pool)
-    for fam_cfgs in titration_matrix_families(seed):
+    abort_fams = []
+    for fam_cfgs in abort_matrix_families(seed, quick):
+        fam = []
+        for c in fam_cfgs:
+            k = corpus.cfg_key(c)
+            if k not in seen:
+                seen.add(k)
+                fam.append(len(pool))
+                pool.append(c)
+        if fam:
+            families.append(fam)
+            abort_fams.append(fam)
+    n_pool_random = len(pool)
+    for fam_cfgs in titration_matrix_families(seed) + feature_families(seed, quick):
         fam = []
         for c in fam_cfgs:
             k = corpus.cfg_key(c)
@@ -897,6 +982,14 @@ def main(tier, seed):
                       "cfg": A, "others": others, "max_aborts": 40 if quick else 80,
                       "ops": [None] * 80, "pool": []})
         n_sweeps += 1
+    for fi, fam in enumerate(abort_fams):
+        for mi, ai in enumerate(fam):
+            others = [pool[fam[(mi + d) % len(fam)]] for d in (1, 2, 3)] + [pool[ai]]
+            hists.append({"id": f"ham{fi}_{mi}", "kind": "c11.abort_sweep",
+                          "seed": seed * 1_000_003 + 7000 + fi * 50 + mi, "cfg": pool[ai],
+                          "others": others, "max_aborts": 36 if quick else 80,
+                          "ops": [None] * 72, "pool": []})
+            n_sweeps += 1
     # long jobs first
     hists.sort(key=lambda h: (-len(h["ops"]), h["id"]))
     hs_values = [0, 4242] if quick else [0, 4242, 1, 99991, 2**31 - 5, 31337]
